@@ -107,7 +107,7 @@ Definition C08_ledger_cell : Prop :=
 (* a remaining demand that is a multiple of the quantum never increases *)
 Definition C08_ledger_monotone : Prop :=
   forall (prec : Z) (r d : Qc) (z : Z),
-  r = (Qc_of_Z z * quantum prec)%Qc -> (0 <= d)%Qc ->
+  r = (Qc_of_Z z * quantum prec)%Qc -> (0 <= d)%Qc -> (0 <= r)%Qc ->
   (ledger_cell prec r d <= r)%Qc /\
   exists z', ledger_cell prec r d = (Qc_of_Z z' * quantum prec)%Qc.
 
